@@ -201,6 +201,27 @@ def r03_4(run):
                    slot='notify-inside-snapshot',
                    message='connectionLost copies the outstanding commands, then runs %s, then resets the queue: a command submitted by '
                            'that observer is in neither and never fires' % src(nn.ast)[:60])
+    # (a') the snapshot may be the queue list itself (outstanding = [..] + q if in_flight else q): then the queue is emptied by
+    # re-binding, never in place - `del self.commands[:]` / .clear() would empty the snapshot too, and nothing is failed
+    for sn in snaps:
+        v = assign_to(sn.ast, [t for t in assigned_targets(sn.ast)][0]) if assigned_targets(sn.ast) else None
+        alias_leg = v is not None and (dotted(v) == 'self.commands' or any(isinstance(x, ast.IfExp) and (dotted(x.body) == 'self.commands' or dotted(x.orelse) == 'self.commands')
+                                                                            for x in ast.walk(v)))
+        # ... which matters only if "no command in flight" can coincide with a non-empty queue: normally every reply that frees the
+        # slot issues the next command at once (so an idle slot means an empty queue); a reply path that frees the slot without issuing
+        # breaks that, and only then does the in-place emptying lose commands
+        br = U(run, '_broadcast_response')
+        gb = cfg_of(br)
+        frees = [n for n in gb.real_nodes() if n.kind == 'stmt' and assign_to(n.ast, 'self.command') is not None and is_none(assign_to(n.ast, 'self.command'))]
+        issues = gb.nodes_where(lambda n: any(is_call_to(a, 'self._maybe_issue_command') for a in node_asts(n)))
+        idle_nonempty = any(gb.escapes(fr, lambda n: n in issues, exits=gb.normal_exits(), follow_exc=False) for fr in frees)
+        if alias_leg and idle_nonempty:
+            inplace = [n for n in g.real_nodes() if any((isinstance(a, ast.Delete) and any(isinstance(t, ast.Subscript) and dotted(t.value) == 'self.commands' for t in a.targets)) or
+                                                        (isinstance(a, ast.Call) and dotted(a.func) in ('self.commands.clear',)) for a in node_asts(n))]
+            for n in inplace:
+                run.ob('R03.4', cl, n.ast, 'the queue is not emptied in place while the snapshot of outstanding commands may be that very list', False, slot='snapshot-aliased',
+                       message='connectionLost empties self.commands in place (%s) although the snapshot %s is the same list when no command is in flight: the queued '
+                               'commands are wiped before the errback loop and stay pending for ever' % (src(n.ast)[:40], src(v)[:60]))
     # (c) _when_disconnected is what _maybe_issue_command consults before writing: it is latched before any other
     # user code (the deprecated on_disconnect callbacks) runs, otherwise a command submitted there is written after the loss
     fires = [n for n in notif if any(is_call_to(a, 'self._when_disconnected.fire') for a in node_asts(n))]
@@ -339,7 +360,34 @@ def r03_6(run):
     run.ob('R03.6', cl, cl.node, 'late refusals examined', True)
 
 
+def r03_7(run):
+    """every place a submitted command can wait in is failed by the loss: queue_command parks the command's Deferred only in
+    containers that connectionLost reads when it collects the outstanding commands.  A second waiting room (commands "held" during
+    authentication, a retry list, ...) that connectionLost does not look at keeps its commands pending for ever - or hands them to
+    the queue after the snapshot was taken"""
+    qc = U(run, 'queue_command')
+    cl = U(run, 'connectionLost')
+    ci = proto(run)
+    parks = []
+    for c in calls_in(qc):
+        d = dotted(c.func) or ''
+        if d.startswith('self.') and d.split('.')[-1] in ('append', 'appendleft', 'insert', 'add', 'extend') and len(d.split('.')) == 3:
+            parks.append((d.split('.')[1], c))
+    for n in walk_unit(qc):
+        if isinstance(n, ast.Assign):
+            for t in n.targets:
+                if isinstance(t, ast.Subscript) and (dotted(t.value) or '').startswith('self.') and (dotted(t.value) or '').count('.') == 1:
+                    parks.append((dotted(t.value).split('.')[1], n))
+    run.floor('R03.7', 'places queue_command parks a command in', len(parks), 1)
+    read = set(x.attr for x in walk_unit(cl) if isinstance(x, ast.Attribute) and dotted(x.value) == 'self')
+    for attr, node in parks:
+        run.ob('R03.7', qc, node, 'connectionLost collects the commands waiting in self.%s' % attr, attr in read, slot='waiting-room:%s' % attr,
+               message='queue_command parks commands in self.%s, which connectionLost never reads: a command waiting there when the connection is lost is '
+                       'not failed (it stays pending, or joins the queue after the outstanding commands were collected)' % attr)
+
+
 RULES = [
+    ('R03.7', 'who-holds: every container queue_command parks a command in is read by connectionLost', r03_7),
     ('R03.1', 'post-condition of connectionLost on every path: one disconnect notification, in-flight and queued commands errbacked, slot cleared, queue emptied', r03_1),
     ('R03.4', 'order inside connectionLost: snapshot after the last observer notification; no partial operation (unpack of split, int()) inside the errback loop', r03_4),
     ('R03.5', 'in-flight slot discipline of _maybe_issue_command (R01.4 borrowed)', r03_5),
@@ -352,6 +400,8 @@ RULES = [
 from ..selftest import M  # noqa: E402
 F = 'txtorcon/torcontrolprotocol.py'
 MUTANTS = [
+    M('second-waiting-room', F, ["        d = defer.Deferred()\n        self.commands.append((d, cmd, arg))\n        self._maybe_issue_command()\n        return d", "        self.commands = []\n        for d, cmd, cmd_arg in outstanding:"], ["        d = defer.Deferred()\n        if getattr(self, '_holding', False):\n            self._held.append((d, cmd, arg))\n            return d\n        self.commands.append((d, cmd, arg))\n        self._maybe_issue_command()\n        return d", "        self.commands = []\n        for d, cmd, cmd_arg in outstanding:"], ['R03.7']),
+    M('queue-cleared-in-place-and-idle-slot-with-queue', F, ["        self.commands = []\n        for d, cmd, cmd_arg in outstanding:", "        self.defer = None\n        self._maybe_issue_command()\n"], ["        del self.commands[:]\n        for d, cmd, cmd_arg in outstanding:", "        self.defer = None\n        if resp != 'closing connection':\n            self._maybe_issue_command()\n"], ['R03.4']),
     M('loss-flushes-line-buffer', F, "        txtorlog.msg('connection terminated: ' + str(reason))\n", "        txtorlog.msg('connection terminated: ' + str(reason))\n        tail, self._buffer = self._buffer, b''\n        if tail[3:4] == b' ':\n            self.lineReceived(tail)\n", ['R03.6']),
     M('late-submission-plain-error', F, ["        d = defer.Deferred()\n        self.commands.append((d, cmd, arg))", "        self.commands = []\n        for d, cmd, cmd_arg in outstanding:"], ["        if self.commands is None:\n            return defer.fail(RuntimeError('not connected'))\n        d = defer.Deferred()\n        self.commands.append((d, cmd, arg))", "        self.commands = None\n        for d, cmd, cmd_arg in outstanding:"], ['R03.6']),
     M('issue-command-takes-argument', 'txtorcon/torcontrolprotocol.py', "    def _maybe_issue_command(self):\n", "    def _maybe_issue_command(self, force):\n", ['R-X']),
